@@ -77,48 +77,84 @@ pub fn c07a() -> bool {
     bad
 }
 
-/// D7: after removing a document and creating it again, nothing of the old document may be
-/// observable -- in particular no author heads.
+/// D7 / removal: after removing a document (with entries, and also an EMPTY one that only has a
+/// capability, a peer and a policy) and creating it again, nothing of the old document may be
+/// observable: no entries, heads, peers, policy; a removed document cannot be opened.
 pub fn d7() -> bool {
-    let mut store = Store::memory();
-    let ns = NamespaceSecret::from_bytes(&[5u8; 32]);
-    let author = Author::from_bytes(&[6u8; 32]);
-    let id = ns.id();
-    {
-        let mut replica = store.new_replica(ns.clone()).unwrap();
-        let (h, l) = hash(b"x");
-        block_on(replica.insert(b"k", &author, h, l)).unwrap();
+    use iroh_docs::store::DownloadPolicy;
+    let mut bad = false;
+    for with_entry in [true, false] {
+        let mut store = Store::memory();
+        let ns = NamespaceSecret::from_bytes(&[5u8; 32]);
+        let author = Author::from_bytes(&[6u8; 32]);
+        let id = ns.id();
+        {
+            let mut replica = store.new_replica(ns.clone()).unwrap();
+            if with_entry {
+                let (h, l) = hash(b"x");
+                block_on(replica.insert(b"k", &author, h, l)).unwrap();
+            }
+        }
+        store.register_useful_peer(id, [3u8; 32]).unwrap();
+        store.set_download_policy(&id, DownloadPolicy::NothingExcept(vec![])).unwrap();
+        store.close_replica(id);
+        store.remove_replica(&id).unwrap();
+        let still_there = store.load_replica_info(&id).is_ok();
+        store.close_replica(id);
+        let _ = store.new_replica(ns).unwrap();
+        store.close_replica(id);
+        let heads = store.get_latest_for_each_author(id).unwrap().count();
+        let entries = store.get_many(id, Query::all().include_empty()).unwrap().count();
+        let peers = store.get_sync_peers(&id).unwrap().is_some();
+        let policy_default = matches!(store.get_download_policy(&id).unwrap(), DownloadPolicy::EverythingExcept(ref v) if v.is_empty());
+        eprintln!("d7[with_entry={with_entry}]: openable after removal: {still_there}; after re-create: {entries} entries, {heads} heads, peers: {peers}, default policy: {policy_default}");
+        if still_there || heads != 0 || entries != 0 || peers || !policy_default {
+            bad = true;
+        }
     }
-    store.close_replica(id);
-    store.remove_replica(&id).unwrap();
-    let _ = store.new_replica(ns).unwrap();
-    store.close_replica(id);
-    let heads: Vec<_> = store.get_latest_for_each_author(id).unwrap().collect::<Result<Vec<_>, _>>().unwrap();
-    let entries = store.get_many(id, Query::all()).unwrap().count();
-    eprintln!("d7: after remove + re-create: {} entries, {} author heads", entries, heads.len());
-    !heads.is_empty() || entries != 0
+    bad
 }
 
-/// D4: entries arriving in decreasing timestamp order (at unrelated keys) must not lower the
-/// author's reported head.
+/// D4 / stored heads: after each of several arrival orders (decreasing timestamps at unrelated keys,
+/// an update of an existing key after a newer entry elsewhere, a late deletion marker below the
+/// head) the reported head of the author must be the greatest timestamp among the entries held.
 pub fn d4() -> bool {
     use iroh_docs::{Record, SignedEntry};
-    let mut store = Store::memory();
-    let ns = NamespaceSecret::from_bytes(&[9u8; 32]);
-    let author = Author::from_bytes(&[10u8; 32]);
-    let id = ns.id();
-    let mut replica = store.new_replica(ns.clone()).unwrap();
     let now = std::time::SystemTime::now().duration_since(std::time::UNIX_EPOCH).unwrap().as_micros() as u64;
     let (h, l) = hash(b"x");
-    let newer = SignedEntry::from_parts(&ns, &author, b"a", Record::new(h, l, now));
-    let older = SignedEntry::from_parts(&ns, &author, b"b", Record::new(h, l, now - 1000));
-    block_on(replica.insert_remote_entry(newer, [1u8; 32], iroh_docs::ContentStatus::Missing)).unwrap();
-    block_on(replica.insert_remote_entry(older, [1u8; 32], iroh_docs::ContentStatus::Missing)).unwrap();
-    drop(replica);
-    let heads: Vec<_> = store.get_latest_for_each_author(id).unwrap().collect::<Result<Vec<_>, _>>().unwrap();
-    let head = heads.first().map(|h| h.1).unwrap_or(0);
-    eprintln!("d4: newest entry {}, reported head {}", now, head);
-    head != now
+    // (key, timestamp offset below now, deletion marker?)
+    let scenarios: [&[(&[u8], u64, bool)]; 3] = [
+        &[(b"a", 0, false), (b"b", 1000, false)],
+        &[(b"notes", 3000, false), (b"todo", 1000, false), (b"notes", 2000, false)],
+        &[(b"docs/old", 3000, false), (b"docs/new", 1000, false), (b"docs/", 2000, true)],
+    ];
+    let mut bad = false;
+    for (i, sc) in scenarios.iter().enumerate() {
+        let mut store = Store::memory();
+        let ns = NamespaceSecret::from_bytes(&[9u8; 32]);
+        let author = Author::from_bytes(&[10u8; 32]);
+        let id = ns.id();
+        let mut replica = store.new_replica(ns.clone()).unwrap();
+        for (key, off, del) in sc.iter() {
+            let rec = if *del { Record::empty(now - off) } else { Record::new(h, l, now - off) };
+            let e = SignedEntry::from_parts(&ns, &author, key, rec);
+            let _ = block_on(replica.insert_remote_entry(e, [1u8; 32], iroh_docs::ContentStatus::Missing));
+        }
+        drop(replica);
+        let held_max = store
+            .get_many(id, Query::all().include_empty())
+            .unwrap()
+            .map(|e| e.unwrap().timestamp())
+            .max()
+            .unwrap_or(0);
+        let heads: Vec<_> = store.get_latest_for_each_author(id).unwrap().collect::<Result<Vec<_>, _>>().unwrap();
+        let head = heads.first().map(|h| h.1).unwrap_or(0);
+        eprintln!("d4[{i}]: newest held entry {held_max}, reported head {head}");
+        if head != held_max {
+            bad = true;
+        }
+    }
+    bad
 }
 
 /// D1: a newer deletion marker at a prefix (and a newer entry at the empty key) must block an
